@@ -191,15 +191,21 @@ class Obj:
 # ---------------------------------------------------------------------------
 
 class State:
-    __slots__ = ("vals", "heap", "arng")
+    __slots__ = ("vals", "heap", "arng", "facts")
 
-    def __init__(self, vals=None, heap=None, arng=None):
+    def __init__(self, vals=None, heap=None, arng=None, facts=()):
         self.vals = vals if vals is not None else {}
         self.heap = heap if heap is not None else {}
         self.arng = arng if arng is not None else {}
+        self.facts = facts      # path facts: affine forms >= 0 established by branches between exact values
 
     def copy(self):
-        return State(dict(self.vals), dict(self.heap), dict(self.arng))
+        return State(dict(self.vals), dict(self.heap), dict(self.arng), self.facts)
+
+    def add_fact(self, f):
+        if f.is_const() or f in self.facts or len(self.facts) > 24:
+            return
+        self.facts = self.facts + (f,)
 
 
 class Unsupported(Exception):
@@ -208,12 +214,13 @@ class Unsupported(Exception):
 
 class Rng:
     """atom range lookup (state-refined ranges first) carrying the list of affine facts (>= 0)"""
-    __slots__ = ("atoms", "ar", "facts")
+    __slots__ = ("atoms", "ar", "facts", "_state")
 
-    def __init__(self, atoms, ar, facts):
+    def __init__(self, atoms, ar, facts, state=None):
         self.atoms = atoms
         self.ar = ar
         self.facts = facts
+        self._state = state
 
     def __call__(self, a):
         r = self.ar.get(a)
@@ -272,6 +279,8 @@ class Analysis:
         self.mem_log = []
         self.raw_parts_log = []
         self.facts = []          # affine forms known to be >= 0 (table relations, domain assumptions)
+        self.loop_atoms = {}
+        self.loop_atom_info = {}
         self.post_hooks = []     # fn(an, st, callee path, args, ret) -> ret : domain assumptions on call results
         from . import models
         self.models = models
@@ -287,7 +296,7 @@ class Analysis:
         return name
 
     def rng_fn(self, st):
-        return Rng(self.atoms, st.arng, self.facts)
+        return Rng(self.atoms, st.arng, (self.facts + list(st.facts)) if st.facts else self.facts, st)
 
     def prod_atom(self, a, b):
         """canonical atom for the product of two non-negative atoms"""
@@ -327,6 +336,15 @@ class Analysis:
             if slo is None and shi is None:
                 continue
             base = mul(a, b)
+            # path facts over the atoms of x, multiplied by s >= 0, relate the product atoms
+            xs = {at for bnd in (x.slo, x.shi) if bnd is not None for at, _ in bnd.t}
+            st = getattr(rng, "_state", None)
+            if st is not None:
+                for f in list(st.facts):
+                    if any(at in xs for at, _ in f.t) and not any(at.startswith("(") for at, _ in f.t):
+                        pf = self.scale_by_atom(f, s)
+                        if pf is not None:
+                            st.add_fact(pf)
             return IntV(base.nlo, base.nhi, a.bits, a.signed, slo, shi)
         return None
 
@@ -709,7 +727,7 @@ class Analysis:
             r = (min(ra[0], rb[0]), max(ra[1], rb[1]))
             if r != self.atoms[k]:
                 arng[k] = r
-        out = State({}, {}, arng)
+        out = State({}, {}, arng, tuple(f for f in a.facts if f in b.facts))
         rng = self.rng_fn(out)
         for k, va in a.vals.items():
             vb = b.vals.get(k)
@@ -725,6 +743,9 @@ class Analysis:
 
     def leq_state(self, a, b):
         """a included in b"""
+        for f in b.facts:
+            if f not in a.facts:
+                return False
         rng = self.rng_fn(b)
         for k, r in a.arng.items():
             rb = b.arng.get(k, self.atoms[k])
@@ -880,8 +901,15 @@ class Analysis:
                 return False
             if a.slo is not None and b.shi is not None and (a.slo - b.shi).lo(rng) + d > 0:
                 return False
-            na = a.with_(nhi=min(a.nhi, b.nhi - d), shi=self._choose_hi(a.shi, (b.shi - d) if b.shi is not None else None, rng))
-            nb = b.with_(nlo=max(b.nlo, a.nlo + d), slo=self._choose_lo(b.slo, (a.slo + d) if a.slo is not None else None, rng))
+            # an exact affine value keeps its form (only its atoms' ranges are refined)
+            a_ex = a.slo is not None and a.slo == a.shi
+            b_ex = b.slo is not None and b.slo == b.shi
+            if a_ex and b_ex and not (a.slo.is_const() and b.slo.is_const()):
+                st.add_fact(b.slo - a.slo - d)      # the relation itself, as a path fact
+            na = a.with_(nhi=min(a.nhi, b.nhi - d),
+                         shi=a.shi if a_ex else self._choose_hi(a.shi, (b.shi - d) if b.shi is not None else None, rng))
+            nb = b.with_(nlo=max(b.nlo, a.nlo + d),
+                         slo=b.slo if b_ex else self._choose_lo(b.slo, (a.slo + d) if a.slo is not None else None, rng))
             if not self.refine_atom_from(st, a, hi=na.nhi):
                 return False
             if not self.refine_atom_from(st, b, lo=nb.nlo):
@@ -1116,6 +1144,8 @@ class Analysis:
             if o.kind == "slice":
                 if not proj:
                     return SliceV(oid, o.len)
+                if proj[0] == "e":
+                    self.log_elem(st, oid, o, proj[1], False)
                 return o.elem
             if o.kind == "cell":
                 return o.elem if not proj else TOP
@@ -1273,11 +1303,21 @@ class Analysis:
                     if proj[0] < len(o2.fields):
                         o2.fields[proj[0]] = self._set_in(o2.fields[proj[0]], proj[1:], val) if len(proj) > 1 else val
             elif o.kind == "slice":
+                if proj and proj[0] == "e":
+                    self.log_elem(st, oid, o, proj[1], True)
                 o2.elem = self.join_val(o.elem, val, rng) if proj or True else val
                 o2.values = None
             elif o.kind == "cell":
                 o2.elem = val
             st.heap[oid] = o2
+
+    def log_elem(self, st, oid, o, idx, write):
+        if not self._rec or type(idx) is not IntV:
+            return
+        rng = self.rng_fn(st)
+        self.mem_log.append({"fn": self.stack[-1][0] if self.stack else "?", "site": "elem-ref", "obj": oid,
+                             "off": norm(mul(idx, IntV.const(o.esize)), rng), "width": o.esize, "write": write,
+                             "what": "element reference from a slice iterator", "loc": "-", "objname": o.name, "safe": True})
 
     def _set_in(self, cur, proj, val):
         if not proj:
